@@ -442,23 +442,34 @@ func (s *slicer) freeVar(fv *ssa.FreeVar, depth int) {
 	if idx < 0 || fn.Parent() == nil {
 		return
 	}
-	for _, b := range fn.Parent().Blocks {
-		for _, i := range b.Instrs {
-			if mc, ok := i.(*ssa.MakeClosure); ok && mc.Fn == ssa.Value(fn) && idx < len(mc.Bindings) {
-				s.visit(mc.Bindings[idx], depth)
-			}
+	// the closure may be created in any canonical body (the creating helper may have been inlined into its callers)
+	for _, mc := range s.c.closureSites()[fn] {
+		if idx < len(mc.Bindings) {
+			s.visit(mc.Bindings[idx], depth)
 		}
 	}
-	// closures nested deeper
-	for _, anon := range fn.Parent().AnonFuncs {
-		for _, b := range anon.Blocks {
+}
+
+// closureSites indexes the MakeClosure instructions of the canonical module functions by the closure they create.
+func (c *Ctx) closureSites() map[*ssa.Function][]*ssa.MakeClosure {
+	e := c.ensureEffects()
+	if e.closureSites != nil {
+		return e.closureSites
+	}
+	m := map[*ssa.Function][]*ssa.MakeClosure{}
+	for _, f := range c.ModFuncs {
+		for _, b := range f.Blocks {
 			for _, i := range b.Instrs {
-				if mc, ok := i.(*ssa.MakeClosure); ok && mc.Fn == ssa.Value(fn) && idx < len(mc.Bindings) {
-					s.visit(mc.Bindings[idx], depth)
+				if mc, ok := i.(*ssa.MakeClosure); ok {
+					if g, ok := mc.Fn.(*ssa.Function); ok {
+						m[g] = append(m[g], mc)
+					}
 				}
 			}
 		}
 	}
+	e.closureSites = m
+	return m
 }
 
 // fieldStores indexes every store to a struct field in the module: "pkg.T.f" -> stores.
@@ -642,4 +653,30 @@ func isModuleStructPtr(t types.Type) bool {
 	}
 	path := n.Obj().Pkg().Path()
 	return path == modPath || len(path) > len(modPath) && path[:len(modPath)+1] == modPath+"/"
+}
+
+// originsKeepPhi is origins(), except that the given phi is kept as an origin instead of being looked through.
+func originsKeepPhi(v ssa.Value, keep *ssa.Phi) []ssa.Value {
+	seen := map[ssa.Value]bool{}
+	var out []ssa.Value
+	var walk func(v ssa.Value)
+	walk = func(v ssa.Value) {
+		if v == nil || seen[v] {
+			return
+		}
+		seen[v] = true
+		if v == ssa.Value(keep) {
+			out = append(out, v)
+			return
+		}
+		if phi, ok := v.(*ssa.Phi); ok {
+			for _, e := range phi.Edges {
+				walk(e)
+			}
+			return
+		}
+		out = append(out, origins(v)...)
+	}
+	walk(v)
+	return out
 }
